@@ -66,6 +66,14 @@ Definition MagOps : NumOps (F * F) := {|
                       snd a / nabs (fst b) + (nabs (fst a) * snd b) / (fst b * fst b));
   nopp := fun a => (- fst a, snd a);
   nofZ := fun z => (nofZ z, nofZ (Z.abs z)) |}.
+(* comparisons look at the value only, so a model run at this instance takes exactly the
+   branches of the plain run and additionally carries the error scale of every number *)
+Definition MagCmp : @NumCmp (F * F) MagOps := {|
+  nleb := fun a b => nleb (fst a) (fst b);
+  nltb := fun a b => nltb (fst a) (fst b);
+  neqb := fun a b => neqb (fst a) (fst b);
+  nabs := fun a => (nabs (fst a), snd a);
+  nofQ := fun q => (nofQ q, nabs (nofQ q)) |}.
 (* |a - b| <= tol * scale *)
 Definition close (tol scale a b : F) : bool := nleb (nabs (a - b)) (tol * scale).
 End Mag.
